@@ -28,7 +28,8 @@ theorem initCallConv_sysv (e : Env) (ccid : Nat) (h : convOf e ccid = some .sysv
   · repeat' split at h
     all_goals first | contradiction | (simp at h)
 
-def sysvDom (t : Nat) : Bool := (isInt t && !isAbstract t) || isF32F64 t || isVec t || isMask t
+/-- every concrete type: integers, float, double, long double, `__m64`, vectors, opmasks (with fixes C06-14 and C06-15 nothing is excluded) -/
+def sysvDom (t : Nat) : Bool := (isInt t && !isAbstract t) || isF32F64 t || isVec t || isMask t || isMmx t || t = tFloat80
 
 structure SysvInv (s : St) (older : List Nat) : Prop where
   gp : s.gpPos = min (nCls .integer older) 6
@@ -63,18 +64,23 @@ theorem sysv_init_inv : SysvInv { stackOffset := ccSysv.spillZone } [] :=
   ⟨by simp [nCls], by simp [nCls], by simp [sysvStackEnd, ccSysv], by simp [ccSysv]⟩
 
 
+theorem ccSysv_mmx : ccSysv.hasFlag fMmxByXmm = true := by decide
+
 theorem sysv_step_sse (va : Bool) (s : St) (older : List Nat) (t : Nat) (hI : SysvInv s older)
-    (hfv : (isF32F64 t || isVec t) = true) (hm101 : t ∈ List.range 101) :
-    (x86DefaultValue ccSysv va 8 s t).2 = sysvArg older t ∧ SysvInv (x86DefaultValue ccSysv va 8 s t).1 (t :: older) := by
+    (hfv : (isF32F64 t || isVec t || isMmx t) = true) (hm101 : t ∈ List.range 101) :
+    (x86DefaultValue ccSysv va 8 false s t).2 = sysvArg older t ∧ SysvInv (x86DefaultValue ccSysv va 8 false s t).1 (t :: older) := by
   obtain ⟨hgp, hvec, hoff, hal⟩ := hI
-  obtain ⟨hview, hni, hn80, hnm, hfv', hmax, hsz, hfl, hve⟩ := vec_facts t hm101 hfv
+  obtain ⟨hview, hni, hn80, hfv0, hmax, hsz, hfl⟩ := sse_facts t hm101 hfv
+  have hfv' : (isFloat t || isVec t || (isMmx t && ccSysv.hasFlag fMmxByXmm)) = true := by
+    rw [ccSysv_mmx, Bool.and_true]; exact hfv0
   have hcls : sysvClass t = .sse := by simp [sysvClass, hni, hfv]
   have hflag := ccSysv_flags
-  have hreg : (if isFloat t = true then (if (!ccSysv.hasFlag fFloatsByVec) = true then idBad else orderAt ccSysv.vecOrder s.vecPos)
+  have hreg : (if isFloat t = true then (if (!ccSysv.hasFlag fFloatsByVec || decide (t = tFloat80)) = true then idBad else orderAt ccSysv.vecOrder s.vecPos)
                else (if (va && ccSysv.hasFlag fVecByStackIfVA) = true then idBad else orderAt ccSysv.vecOrder s.vecPos))
               = orderAt ccSysv.vecOrder s.vecPos := by
-    simp [hflag.1, hflag.2]
+    simp [hflag.1, hflag.2, hn80]
   simp only [x86DefaultValue, hni, hfv', if_true, if_false, Bool.false_eq_true, hreg]
+  simp only [hn80, if_false]
   have hord : orderAt ccSysv.vecOrder s.vecPos = if nCls .sse older < 8 then nCls .sse older else idBad := by
     rw [hvec]; exact orderAt_sysv_vec _
   rw [hord]
@@ -109,17 +115,17 @@ theorem sysv_step_sse (va : Bool) (s : St) (older : List Nat) (t : Nat) (hI : Sy
 /-- one argument: the counter loop answers what the rule says and re-establishes the invariant -/
 theorem sysv_step (va : Bool) (s : St) (older : List Nat) (t : Nat) (hI : SysvInv s older) (ht : sysvDom t = true)
     (hlt : t < 101) :
-    (x86DefaultValue ccSysv va 8 s t).2 = sysvArg older t ∧ SysvInv (x86DefaultValue ccSysv va 8 s t).1 (t :: older) := by
+    (x86DefaultValue ccSysv va 8 false s t).2 = sysvArg older t ∧ SysvInv (x86DefaultValue ccSysv va 8 false s t).1 (t :: older) := by
   obtain ⟨hgp, hvec, hoff, hal⟩ := hI
   have hm101 : t ∈ List.range 101 := List.mem_range.2 hlt
   simp only [sysvDom, Bool.or_eq_true, Bool.and_eq_true, Bool.not_eq_true'] at ht
-  rcases ht with ((⟨hi, hab⟩ | hf) | hv) | hm
+  rcases ht with ((((⟨hi, hab⟩ | hf) | hv) | hm) | hmx) | h80
   · -- integer
     have hlt42 : t ∈ List.range 42 := by
       simp [isInt, isBetween] at hi; exact List.mem_range.2 (by omega)
     obtain ⟨hview, hmax, hss, hsa, _⟩ := int_facts t hlt42 hi hab
     have hcls : sysvClass t = .integer := by simp [sysvClass, hi]
-    simp only [x86DefaultValue, hi, if_true, ccSysv, hgp, orderAt_sysv_gp]
+    simp only [x86DefaultValue, hi, if_true, Bool.false_eq_true, if_false, ccSysv, hgp, orderAt_sysv_gp]
     by_cases hk : nCls .integer older < 6
     · have hne := sysvGp_ne_bad _ hk
       simp only [hk, if_true, hne, ne_eq, not_false_eq_true]
@@ -138,24 +144,39 @@ theorem sysv_step (va : Bool) (s : St) (older : List Nat) (t : Nat) (hI : SysvIn
       · simp [sysvStackEnd, sysvOnStack, hcls, hge, hsa, hss, ← hoff, alignUp_of_dvd (by decide : 0 < 8) hal, hmax]
       · simp [hmax]; omega
   · -- float / double
-    have hfv : (isF32F64 t || isVec t) = true := by simp [hf]
-    obtain ⟨hview, hni, hn80, hnm, hfv', hmax, hsz, hfl, hve⟩ := vec_facts t hm101 hfv
-    exact sysv_step_sse va s older t ⟨hgp, hvec, hoff, hal⟩ hfv hm101
-  · have hfv : (isF32F64 t || isVec t) = true := by simp [hv]
-    exact sysv_step_sse va s older t ⟨hgp, hvec, hoff, hal⟩ hfv hm101
+    exact sysv_step_sse va s older t ⟨hgp, hvec, hoff, hal⟩ (by simp [hf]) hm101
+  · exact sysv_step_sse va s older t ⟨hgp, hvec, hoff, hal⟩ (by simp [hv]) hm101
   · -- opmask types: no location on either side, no counter moves
     obtain ⟨hni, hnf, hnv, hnm, hnff, hn80⟩ := mask_facts t hm101 hm
     have hcls : sysvClass t = .none := by simp [sysvClass, hni, hnff, hnv, hnm, hn80]
-    simp only [x86DefaultValue, hni, hnf, hnv, Bool.or_false, if_false, Bool.false_eq_true]
+    simp only [x86DefaultValue, hni, hnf, hnv, hnm, Bool.or_false, Bool.false_and, if_false, Bool.false_eq_true]
     refine ⟨by simp [sysvArg, hcls], ⟨?_, ?_, ?_, hal⟩⟩
     · simp [nCls, hcls] at *; exact hgp
     · simp [nCls, hcls] at *; exact hvec
     · simp [sysvStackEnd, sysvOnStack, hcls, hoff]
+  · -- `__m64`: class SSE (fix C06-14)
+    exact sysv_step_sse va s older t ⟨hgp, hvec, hoff, hal⟩ (by simp [hmx]) hm101
+  · -- long double: class MEMORY, a 16-byte aligned 16-byte slot (fix C06-15)
+    have h80' : t = tFloat80 := of_decide_eq_true h80
+    subst h80'
+    have hcls : sysvClass tFloat80 = .memory := by decide
+    have e1 : isInt tFloat80 = false := by decide
+    have e2 : (isFloat tFloat80 || isVec tFloat80 || (isMmx tFloat80 && ccSysv.hasFlag fMmxByXmm)) = true := by decide
+    have e3 : isFloat tFloat80 = true := by decide
+    have e4 : slotSize tFloat80 = 16 := by decide
+    have e5 : slotAlign tFloat80 = 16 := by decide
+    simp only [x86DefaultValue, e1, e2, e3, if_true, if_false, Bool.false_eq_true, Bool.or_true, decide_true, ne_eq,
+      not_true_eq_false, ge_iff_le, Nat.le_refl]
+    refine ⟨by simp [sysvArg, hcls, e5, hoff], ⟨?_, ?_, ?_, ?_⟩⟩
+    · simp [nCls, hcls] at *; exact hgp
+    · simp [nCls, hcls] at *; exact hvec
+    · simp [sysvStackEnd, sysvOnStack, hcls, e4, e5, hoff]
+    · exact Nat.dvd_add (Nat.dvd_trans (by decide) (dvd_alignUp _ 16)) (by decide)
 
 theorem sysvDom_lt {t : Nat} (h : sysvDom t = true) : t < 101 := by
-  simp only [sysvDom, isInt, isF32F64, isVec, isMask, isAbstract, isBetween, tFloat32, tFloat64, Bool.or_eq_true,
+  simp only [sysvDom, isInt, isF32F64, isVec, isMask, isMmx, isAbstract, isBetween, tFloat32, tFloat64, tFloat80, Bool.or_eq_true,
     Bool.and_eq_true, decide_eq_true_eq, Bool.not_eq_true'] at h
-  rcases h with ((⟨h, _⟩ | h | h) | h) | h <;> first | omega | (have := of_decide_eq_true h; omega)
+  rcases h with ((((⟨h, _⟩ | h | h) | h) | h) | h) | h <;> first | omega | (have := of_decide_eq_true h; omega)
 
 
 /-- the whole argument loop: answers = rules applied position by position; the final counter state is the rules' state -/
@@ -170,10 +191,11 @@ theorem sysv_loop (va : Bool) : ∀ (ts : List Nat) (i : Nat) (s : St) (older : 
     intro i s older hI hd
     have ht := hd t (by simp)
     obtain ⟨hv, hI'⟩ := sysv_step va s older t hI ht (sysvDom_lt ht)
-    obtain ⟨ha, hI''⟩ := ih (i + 1) (x86DefaultValue ccSysv va 8 s t).1 (t :: older) hI' (fun u hu => hd u (by simp [hu]))
+    obtain ⟨ha, hI''⟩ := ih (i + 1) (x86DefaultValue ccSysv va 8 false s t).1 (t :: older) hI' (fun u hu => hd u (by simp [hu]))
     have hstrat : (ccSysv.strategy = 1 || ccSysv.strategy = 2) = false := by decide
     have harch : ccSysv.arch = .x64 := rfl
-    simp only [x86ArgLoop, hstrat, harch, unpack_x64, packLoop, Bool.false_eq_true, if_false]
+    have hwos : (decide ([t].length > 1) && (decide (ccSysv.id = 2) || decide (ccSysv.id = 4))) = false := by simp
+    simp only [x86ArgLoop, hstrat, harch, unpack_x64, hwos, packLoop, Bool.false_eq_true, if_false]
     refine ⟨?_, ?_⟩
     · simp only [argsFrom]; rw [ha, hv]
     · simpa [List.reverse_cons, List.append_assoc] using hI''
